@@ -390,6 +390,15 @@ class Builder(object):
         if isinstance(fn, (ast.Name, ast.Attribute)):
             ctext = self.callee_text(fn)
         args = tuple(simp(self.t(a)) for a in node.args)
+        # f(*(a, b)) / f(*[a, b]) is f(a, b): a literal sequence unpacked in place
+        if any(isinstance(a, tuple) and a[:1] == ('star',) and isinstance(a[1], tuple) and a[1][:1] in (('tuple',), ('list',)) for a in args):
+            ex = []
+            for a in args:
+                if isinstance(a, tuple) and a[:1] == ('star',) and isinstance(a[1], tuple) and a[1][:1] in (('tuple',), ('list',)):
+                    ex.extend(a[1][1:])
+                else:
+                    ex.append(a)
+            args = tuple(ex)
         # f(*e) where e is an element of enumerate(...) is f(e[0], e[1]): such elements are pairs
         if any(isinstance(a, tuple) and a[:1] == ('star',) and isinstance(a[1], tuple) and a[1][:1] == ('elem',) and isinstance(a[1][1], tuple)
                and a[1][1][:1] == ('call',) and show(a[1][1][1]) == 'enumerate' for a in args):
